@@ -22,6 +22,15 @@
 //! `EQUALS`, ...). Two plan-level triggers collapse all downstream symptoms into one key per class,
 //! because the defect they stand for corrupts the routing state itself: `regex_host_in_tree` (a regex
 //! hostname was configured in the tree) and `after_removal_of_tree_EQUALS_frontend`.
+//!
+//! Traffic tier (c04_net.rs = plan / generator / runner, c04_netjudge.rs = history oracle): the same
+//! reference model, one instance per listener, judges what clients observe through a running worker
+//! while frontends are added and removed. Its classes: `wrong_route`, `removed_frontend_still_routes`,
+//! `listener_isolation`, `unrelated_change`, `add_refused` / `add_duplicate_accepted` /
+//! `remove_refused`, `command_unanswered` / `command_answer_count`, `unexpected_answer`, `panic`,
+//! `no_exit`. A plan with the field `traffic` is a traffic plan. Development knobs:
+//! SIMK_C04_ONLY=traffic|model (every seed of a batch is of that tier), SIMK_C04_SYS=<k> (`simk plan`
+//! / `simk show` return the k-th systematic traffic plan), SIMK_NETLOG=1 (`simk debug` adds the world log).
 #![allow(dead_code)]
 use std::collections::{BTreeMap, BTreeSet};
 use std::panic::{catch_unwind, AssertUnwindSafe};
@@ -38,6 +47,57 @@ use crate::prng::{Prng, TraceHash};
 use crate::world::{SchedCfg, World};
 
 pub struct C04;
+
+/// traffic tier (real worker, commands interleaved with requests): plan, generator, runner / oracle
+#[path = "c04_net.rs"]
+pub mod net;
+#[path = "c04_netjudge.rs"]
+pub mod netjudge;
+
+/// one seed in `TRAFFIC_ONE_IN` is a traffic-tier plan (`{"traffic": NetPlan}`); the others are model-tier plans
+pub const TRAFFIC_ONE_IN: u64 = 64;
+pub fn is_traffic_seed(seed: u64) -> bool {
+    // SIMK_C04_ONLY=traffic|model restricts a batch to one tier (development / sensitivity runs)
+    match std::env::var("SIMK_C04_ONLY").as_deref() { Ok("traffic") => true, Ok("model") => false, _ => (seed >> 7) % TRAFFIC_ONE_IN == 0 }
+}
+
+fn traffic_of(plan: &Value) -> Option<Result<net::NetPlan, RunReport>> {
+    let t = plan.get("traffic")?;
+    Some(serde_json::from_value(t.clone()).map_err(|e| RunReport { harness_error: Some(format!("bad traffic plan: {e}")), ..Default::default() }))
+}
+
+/// Process-global lazily initialised state inside sozu and its dependencies (rustls provider, answer
+/// templates, regexes, ...) is built by the first run that needs it, from that run's seeded entropy.
+/// Before its first traffic plan every process therefore executes a fixed set of throw-away plans that
+/// touch those paths (HTTP/1.1 + TLS/HTTP/2, forward / redirect / deny / default answers); afterwards
+/// a plan's trace is a function of the plan alone. (props::warm_up does the same for the other
+/// worker-based properties; C04 is not in its list.)
+fn traffic_warm_up() {
+    static ONCE: std::sync::Once = std::sync::Once::new();
+    ONCE.call_once(|| {
+        let sys = net::systematic();
+        for k in [0usize, 36, 41, 15] { if let Some(p) = sys.get(k) { let _ = net::run_net(p, false); } }
+    });
+}
+
+pub fn run_traffic(p: &net::NetPlan, verbose: bool) -> RunReport {
+    traffic_warm_up();
+    let o = net::run_net(p, verbose && std::env::var("SIMK_NETLOG").is_ok());
+    let ver = netjudge::judge(p, &o, verbose);
+    let mut hash = TraceHash::new();
+    hash.mix(o.trace_hash);
+    for c in &o.cmds { hash.mix(c.sent_t.unwrap_or(0)); hash.mix(c.ack_t.unwrap_or(0)); hash.mix(match c.ok { None => 0, Some(true) => 1, Some(false) => 2 }); }
+    for r in &o.reqs { hash.mix(r.id); hash.mix(r.t_start); hash.mix(r.t_head); hash.mix_bytes(format!("{:?}", r.seen).as_bytes()); }
+    let mut rep = RunReport { seed: p.seed, family: p.family.clone(), violations: ver.violations, trace_hash: hash.0, nontrivial: ver.nontrivial, stats: o.stats.clone(), probes: ver.probes, harness_error: ver.harness_error, summary: net::summarize(p) };
+    rep.probes.insert("traffic_plans".into(), 1);
+    if verbose {
+        let mut s = vec![rep.summary.clone()];
+        s.extend(ver.log);
+        if std::env::var("SIMK_NETLOG").is_ok() { s.extend(o.log); }
+        rep.summary = s.join("\n");
+    }
+    rep
+}
 
 // ------------------------------------------------------------------------------------------ plan
 
@@ -103,8 +163,8 @@ pub struct Plan {
     pub perm_points: Vec<usize>,
 }
 
-type Ident = (u8, String, u8, String, Option<String>);
-fn ident(f: &Front) -> Ident { (f.pos, f.host.clone(), f.pk, f.path.clone(), f.method.clone()) }
+pub type Ident = (u8, String, u8, String, Option<String>);
+pub fn ident(f: &Front) -> Ident { (f.pos, f.host.clone(), f.pk, f.path.clone(), f.method.clone()) }
 
 // ------------------------------------------------------------------------- catalogue of regexes
 // Every regex a plan may contain, with a hand-written matcher. Host label regexes never match '.'
@@ -112,7 +172,7 @@ fn ident(f: &Front) -> Ident { (f.pos, f.host.clone(), f.pk, f.path.clone(), f.m
 
 pub const LABEL_REGEXES: [&str; 5] = ["[ab]+", "[bc]+", "[a-c]", "b[0-9]+", "[xy]"];
 
-fn label_regex_matches(pat: &str, label: &str) -> bool {
+pub fn label_regex_matches(pat: &str, label: &str) -> bool {
     let b = label.as_bytes();
     match pat {
         "[ab]+" => !b.is_empty() && b.iter().all(|c| *c == b'a' || *c == b'b'),
@@ -133,7 +193,7 @@ pub const BARE_PATH_REGEXES: [&str; 3] = ["/a", "/[ab]", "/a/.*"];
 fn is_ab(c: u8) -> bool { c == b'a' || c == b'b' }
 
 /// documented semantics: the regex must match the whole path
-fn path_regex_full(pat: &str, path: &str) -> bool {
+pub fn path_regex_full(pat: &str, path: &str) -> bool {
     let b = path.as_bytes();
     match pat {
         "^/a/.*$" | "/a/.*" => path.starts_with("/a/"),
@@ -148,7 +208,7 @@ fn path_regex_full(pat: &str, path: &str) -> bool {
 }
 
 /// unanchored ("search") semantics, used only to *label* a violation, never to decide one
-fn path_regex_search(pat: &str, path: &str) -> bool {
+pub fn path_regex_search(pat: &str, path: &str) -> bool {
     let b = path.as_bytes();
     match pat {
         "/a" => path.contains("/a"),
@@ -209,7 +269,7 @@ pub fn full_match(f: &Front, p: &Probe) -> bool {
 /// declared unordered by the documentation. Method dimension: specific > agnostic. `a` dominates `b`
 /// when it is at least as good in both dimensions and better in one; when the two dimensions
 /// disagree the documentation is silent and neither dominates.
-fn dominates(a: &Front, b: &Front) -> bool {
+pub fn dominates(a: &Front, b: &Front) -> bool {
     use std::cmp::Ordering::*;
     let rank = |f: &Front| match f.pk { EQUALS => 3, REGEX => 2, _ => 1 };
     let pc = if a.pk != b.pk {
@@ -228,7 +288,7 @@ fn dominates(a: &Front, b: &Front) -> bool {
     match pc { None | Some(Less) => false, Some(Greater) => ma >= mb, Some(Equal) => ma > mb }
 }
 
-fn maximal<'a>(c: &[&'a Front]) -> Vec<&'a Front> {
+pub fn maximal<'a>(c: &[&'a Front]) -> Vec<&'a Front> {
     c.iter().filter(|r| !c.iter().any(|o| dominates(o, r))).cloned().collect()
 }
 
@@ -423,24 +483,24 @@ pub fn pos_name(p: u8) -> &'static str { match p { PRE => "pre", POST => "post",
 pub fn pk_name(k: u8) -> &'static str { match k { PREFIX => "PREFIX", REGEX => "REGEX", _ => "EQUALS" } }
 pub fn hc_name(h: &str) -> &'static str { match host_class(h) { HostClass::Any => "any", HostClass::Exact => "exact", HostClass::Wildcard => "wildcard", HostClass::Regex => "regex" } }
 /// plan-level trigger classification: the most exotic hostname class ever configured in the tree
-fn trigger(m: &Model) -> &'static str {
+pub fn trigger(m: &Model) -> &'static str {
     let cls = m.ever.values().chain(m.refused.values()).filter(|f| f.pos == TREE).map(|f| host_class(&f.host)).min();
     match cls { Some(HostClass::Regex) => "regex_host_in_tree", Some(HostClass::Wildcard) => "wildcard_host_in_tree", _ => "exact_hosts_only" }
 }
-fn short(f: &Front) -> String { format!("{}/{}", pk_name(f.pk), if f.method.is_some() { "method" } else { "any" }) }
-fn show_front(f: &Front) -> String {
+pub fn short(f: &Front) -> String { format!("{}/{}", pk_name(f.pk), if f.method.is_some() { "method" } else { "any" }) }
+pub fn show_front(f: &Front) -> String {
     format!("#{} {} {} {} '{}' {} -> {:?}", f.uid, pos_name(f.pos), f.host, pk_name(f.pk), f.path, f.method.as_deref().unwrap_or("*"), f.route)
 }
-fn show_probe(p: &Probe) -> String { format!("{} {}{}", p.method, p.host, p.path) }
-fn show_obs(o: &Obs) -> String {
+pub fn show_probe(p: &Probe) -> String { format!("{} {}{}", p.method, p.host, p.path) }
+pub fn show_obs(o: &Obs) -> String {
     match o { Obs::NotFound => "no route".into(), Obs::Route { uid: Some(u), .. } => format!("frontend #{u}"), Obs::Route { uid: None, sig } => format!("anonymous {:?}", sig) }
 }
-fn show_out(m: &Model, o: &Out) -> String {
+pub fn show_out(m: &Model, o: &Out) -> String {
     match o { None => "no route".into(), Some(u) => m.rule(*u).map(show_front).unwrap_or_else(|| format!("#{u}")) }
 }
 
 /// is the observation one of the acceptable outcomes
-fn obs_in(m: &Model, o: &Obs, a: &BTreeSet<Out>) -> bool {
+pub fn obs_in(m: &Model, o: &Obs, a: &BTreeSet<Out>) -> bool {
     match o {
         Obs::NotFound => a.contains(&None),
         Obs::Route { uid: Some(u), .. } => a.contains(&Some(*u)),
@@ -450,7 +510,7 @@ fn obs_in(m: &Model, o: &Obs, a: &BTreeSet<Out>) -> bool {
 
 /// the configured frontend an observation points at. A plain deny decision is anonymous: it is
 /// attributed to a configured plain-deny frontend matching the request (one of `prefer` first).
-fn obs_rule<'a>(m: &'a Model, o: &Obs, p: &Probe, prefer: &BTreeSet<Out>) -> Option<&'a Front> {
+pub fn obs_rule<'a>(m: &'a Model, o: &Obs, p: &Probe, prefer: &BTreeSet<Out>) -> Option<&'a Front> {
     match o {
         Obs::NotFound => None,
         Obs::Route { uid: Some(u), .. } => m.rule(*u),
@@ -465,12 +525,12 @@ fn obs_rule<'a>(m: &'a Model, o: &Obs, p: &Probe, prefer: &BTreeSet<Out>) -> Opt
     }
 }
 /// a plain deny decision that a configured plain-deny REGEX frontend explains if its regex is unanchored
-fn anonymous_partial(m: &Model, o: &Obs, p: &Probe) -> bool {
+pub fn anonymous_partial(m: &Model, o: &Obs, p: &Probe) -> bool {
     let Obs::Route { uid: None, sig } = o else { return false };
     m.rules.iter().any(|r| &expected_sig(r) == sig && r.pk == REGEX && !path_matches(r, &p.path) && host_matches(&r.host, &p.host) && method_matches(r, &p.method) && path_regex_search(&r.path, &p.path))
 }
 /// a frontend that is not configured (removed: true, or refused as a duplicate: false) which explains the observation
-fn ghost<'a>(m: &'a Model, o: &Obs, p: &Probe) -> Option<(&'a Front, bool)> {
+pub fn ghost<'a>(m: &'a Model, o: &Obs, p: &Probe) -> Option<(&'a Front, bool)> {
     let gone = |f: &&Front| m.rule(f.uid).is_none();
     match o {
         Obs::NotFound => None,
@@ -488,7 +548,7 @@ fn ghost<'a>(m: &'a Model, o: &Obs, p: &Probe) -> Option<(&'a Front, bool)> {
 }
 /// Once a regex hostname has been configured in the tree, the host-entry defects (see the module
 /// report) can produce any downstream symptom; such plans use one key per oracle class.
-fn tkey(m: &Model, specific: String) -> String {
+pub fn tkey(m: &Model, specific: String) -> String {
     if trigger(m) == "regex_host_in_tree" {
         "regex_host_in_tree".into()
     } else if m.ever.values().any(|f| f.pos == TREE && f.pk == EQUALS && m.rule(f.uid).is_none()) {
@@ -500,16 +560,16 @@ fn tkey(m: &Model, specific: String) -> String {
     }
 }
 /// distinguishing input feature of a frontend whose add/remove misbehaves
-fn feature(m: &Model, f: &Front) -> String {
+pub fn feature(m: &Model, f: &Front) -> String {
     if f.pk == EQUALS { "EQUALS".into() } else { tkey(m, format!("{}:{}", pos_name(f.pos), pk_name(f.pk))) }
 }
 
 /// key of an unacceptable routing decision: names the documented relation that is broken
-fn wrong_key(m: &Model, o: &Obs, a: &BTreeSet<Out>, p: &Probe) -> String {
+pub fn wrong_key(m: &Model, o: &Obs, a: &BTreeSet<Out>, p: &Probe) -> String {
     let k = wrong_key_specific(m, o, a, p);
     if k == "got=regex_partial_match" { k } else { tkey(m, k) }
 }
-fn wrong_key_specific(m: &Model, o: &Obs, a: &BTreeSet<Out>, p: &Probe) -> String {
+pub fn wrong_key_specific(m: &Model, o: &Obs, a: &BTreeSet<Out>, p: &Probe) -> String {
     let want: Vec<&Front> = a.iter().flatten().filter_map(|u| m.rule(*u)).collect();
     if let Some(g) = obs_rule(m, o, p, a) {
         if host_matches(&g.host, &p.host) {
@@ -550,7 +610,7 @@ impl Exec {
     fn count(&mut self, k: &str, n: u64) { if n > 0 { *self.probes.entry(k.into()).or_insert(0) += n; } }
 }
 
-fn history(m: &Model) -> String {
+pub fn history(m: &Model) -> String {
     m.rules.iter().map(show_front).collect::<Vec<_>>().join("; ")
 }
 
@@ -768,15 +828,15 @@ pub fn summarize(p: &Plan) -> String {
 
 // ------------------------------------------------------------------------------------ generator
 
-const DOMAINS: [&str; 2] = ["x.test", "y.test"];
-const LABELS: [&str; 5] = ["a", "b", "c", "ab", "b1"];
-const PREFIX_PATHS: [&str; 7] = ["", "/", "/a", "/a/", "/a/b", "/ab", "/b"];
-const EQUALS_PATHS: [&str; 6] = ["/", "/a", "/a/", "/a/b", "/ab", "/b"];
-const PROBE_PATHS: [&str; 13] = ["/", "/a", "/a/", "/a/b", "/ab", "/b", "/a/b/a", "/b/a", "/b/a/", "/A", "/abb", "/c", "/a/bb"];
-const METHODS: [&str; 3] = ["GET", "POST", "PURGE"];
-const PROBE_METHODS: [&str; 4] = ["GET", "POST", "PURGE", "PUT"];
+pub const DOMAINS: [&str; 2] = ["x.test", "y.test"];
+pub const LABELS: [&str; 5] = ["a", "b", "c", "ab", "b1"];
+pub const PREFIX_PATHS: [&str; 7] = ["", "/", "/a", "/a/", "/a/b", "/ab", "/b"];
+pub const EQUALS_PATHS: [&str; 6] = ["/", "/a", "/a/", "/a/b", "/ab", "/b"];
+pub const PROBE_PATHS: [&str; 13] = ["/", "/a", "/a/", "/a/b", "/ab", "/b", "/a/b/a", "/b/a", "/b/a/", "/A", "/abb", "/c", "/a/bb"];
+pub const METHODS: [&str; 3] = ["GET", "POST", "PURGE"];
+pub const PROBE_METHODS: [&str; 4] = ["GET", "POST", "PURGE", "PUT"];
 
-fn pick_subset<'a>(rng: &mut Prng, all: &[&'a str], lo: usize, hi: usize) -> Vec<&'a str> {
+pub fn pick_subset<'a>(rng: &mut Prng, all: &[&'a str], lo: usize, hi: usize) -> Vec<&'a str> {
     let mut v: Vec<&str> = all.to_vec();
     rng.shuffle(&mut v);
     let n = rng.range(lo as u64, hi.min(all.len()) as u64) as usize;
@@ -797,7 +857,7 @@ fn gen_route(rng: &mut Prng, policy_pm: u64) -> RouteSpec {
 }
 
 /// a concrete request host related to a frontend hostname pattern (a hit or a near miss)
-fn instantiate_host(rng: &mut Prng, h: &str) -> String {
+pub fn instantiate_host(rng: &mut Prng, h: &str) -> String {
     let label = |rng: &mut Prng| rng.pick(&["a", "b", "c", "ab", "b1", "bb", "zz", "x", "A"]).to_string();
     let base = match host_class(h) {
         HostClass::Any => format!("{}.{}", label(rng), rng.pick(&DOMAINS)),
@@ -1015,19 +1075,33 @@ fn parse(plan: &Value) -> Result<Plan, RunReport> {
 
 impl Property for C04 {
     fn id(&self) -> &'static str { "C04" }
-    fn runs(&self, tier: Tier) -> u64 { match tier { Tier::Quick => 150_000, Tier::Thorough => 4_000_000 } }
-    fn gen_plan(&self, seed: u64, tier: Tier) -> Value { serde_json::to_value(generate(seed, tier)).unwrap() }
+    fn runs(&self, tier: Tier) -> u64 { match tier { Tier::Quick => 120_000, Tier::Thorough => 4_000_000 } }
+    fn gen_plan(&self, seed: u64, tier: Tier) -> Value {
+        // SIMK_C04_SYS=<k>: the k-th systematic traffic plan instead (to dump / debug it with `simk plan` / `simk show`)
+        if let Some(k) = std::env::var("SIMK_C04_SYS").ok().and_then(|k| k.parse::<usize>().ok()) { if let Some(p) = net::systematic().into_iter().nth(k) { return serde_json::json!({"traffic": p}); } }
+        if is_traffic_seed(seed) { return serde_json::json!({"traffic": net::generate(seed, tier)}); }
+        serde_json::to_value(generate(seed, tier)).unwrap()
+    }
     fn run_plan(&self, plan: &Value) -> RunReport {
+        if let Some(t) = traffic_of(plan) { return match t { Ok(p) => run_traffic(&p, false), Err(r) => r }; }
         match parse(plan) { Ok(p) => run(&p, false), Err(r) => r }
     }
-    fn enumerated(&self, _tier: Tier) -> Vec<Value> { systematic().into_iter().map(|p| serde_json::to_value(p).unwrap()).collect() }
+    fn enumerated(&self, _tier: Tier) -> Vec<Value> {
+        systematic().into_iter().map(|p| serde_json::to_value(p).unwrap()).chain(net::systematic().into_iter().map(|p| serde_json::json!({"traffic": p}))).collect()
+    }
     fn debug_plan(&self, plan: &Value) -> String {
+        if let Some(t) = traffic_of(plan) { return match t { Ok(p) => { let r = run_traffic(&p, true); format!("{}\nviolations: {:#?}\nprobes: {:?}", r.summary, r.violations, r.probes) } Err(r) => format!("{:?}", r.harness_error) }; }
         match parse(plan) {
             Ok(p) => { let r = run(&p, true); format!("{}\nviolations: {:#?}", r.summary, r.violations) }
             Err(r) => format!("{:?}", r.harness_error),
         }
     }
     fn shrink(&self, plan: &Value) -> Vec<Value> {
+        if let Some(t) = traffic_of(plan) {
+            let Ok(p) = t else { return vec![] };
+            let me = serde_json::json!({"traffic": &p});
+            return netjudge::shrink(&p).into_iter().map(|q| serde_json::json!({"traffic": q})).filter(|q| *q != me).collect();
+        }
         let Ok(p) = parse(plan) else { return vec![] };
         let mut out: Vec<Plan> = Vec::new();
         // truncate the history
@@ -1063,20 +1137,27 @@ impl Property for C04 {
     fn descr(&self) -> Descr {
         Descr {
             level: "exploration",
-            rule: "seeded add/remove/re-add histories of HTTP frontends (swarm: hostname classes exact/wildcard/regex/any, path kinds PREFIX/REGEX/EQUALS, methods, positions pre/tree/post, policies, removal rate, alphabet sizes) plus systematic life-cycle / pairwise-precedence histories, each with 4-32 probe requests (hits and near misses) evaluated against the reference model after every operation and after re-inserting the configured set in two PRNG-chosen orders; a run is non-trivial when >=1 add succeeded and >=1 probe was routed to a frontend; distinct = distinct (operation, result, per-probe decision) trace hashes",
+            rule: "two tiers, chosen per seed (1 seed in 64 is a traffic plan; plan field `traffic`). MODEL TIER: seeded add/remove/re-add histories of HTTP frontends (swarm: hostname classes exact/wildcard/regex/any, path kinds PREFIX/REGEX/EQUALS, methods, positions pre/tree/post, policies, removal rate, alphabet sizes) plus systematic life-cycle / pairwise-precedence histories, each with 4-32 probe requests (hits and near misses) evaluated against the reference model after every operation and after re-inserting the configured set in two PRNG-chosen orders; non-trivial when >=1 add succeeded and >=1 probe was routed to a frontend. TRAFFIC TIER: a real worker with 1-2 listeners (HTTP; HTTP+HTTPS; two HTTP), 2-5 clusters each with its own backend whose answers name the cluster, a seeded script of 2-10 (thorough: 2-18) Add/RemoveHttpFrontend / Add/RemoveHttpsFrontend commands (same alphabets; deny, 301/302/308 redirect and 401 policies; duplicates, removals of unknown frontends, identities shared between listeners, re-adds) sent at seeded virtual times by a master stub that fragments the command stream, while 1-4 clients (keep-alive HTTP/1.1 with fragmented request heads; HTTP/2 over TLS with concurrent streams) send 2-8 (2-14) requests each from a small probe alphabet at seeded times, half of them within microseconds before/after a command or gated on its acknowledgement, a quarter with other Host spellings (upper case, explicit port, trailing dot); plus 48 systematic traffic plans (removal under open keep-alive / HTTP/2 connections for every position x path kind x policy, listener isolation, removal by identity, Host spellings). History oracle: each command takes effect at one instant in [queued by the master, answer read by the master], in FIFO order; each request is routed at one instant in [first byte written, response head read]; the observed outcome (cluster marker / x-front frontend tag / 401 realm / 3xx status and Location port / 404) must be acceptable to the model for one configuration admissible in that window. Non-trivial when >=1 command was acknowledged OK during the traffic and >=1 request was served by a frontend. distinct = distinct trace hashes (operations, results, per-probe decisions; traffic tier: scheduler trace, command times and answers, request windows and outcomes)",
             assumptions: vec![
-                "checked at the Router API (Router::add_http_front / remove_http_front / lookup), the single object both HTTP and HTTPS listeners delegate to; hostnames reach it already stripped of the port",
-                "hostname comparison is byte-exact at this level (as the Router documents); rule hostnames are lower-case ASCII",
+                "model tier: checked at the Router API (Router::add_http_front / remove_http_front / lookup), the single object both HTTP and HTTPS listeners delegate to; hostnames reach it already stripped of the port; hostname comparison is byte-exact at this level (as the Router documents); rule hostnames are lower-case ASCII",
                 "where the documentation is silent (method-specificity against path-specificity, host-first against full-match-first when the most specific host entry has no matching path rule, several regex hostnames or several REGEX paths matching) every candidate is acceptable",
+                "traffic tier: the host used for matching is the Host / :authority value without its port (RFC 9110 authority = host[:port]); the documentation says nothing about case folding or a trailing dot, so for those spellings both the byte-exact and the normalised reading are acceptable (the observed behaviour is counted in the probes `observed_404_for_*_spelling_of_a_routed_host`)",
+                "traffic tier: a command's answer is compared with the model only where the statement defines it (add of an unconfigured identity -> OK, of a configured identity -> error, removal of a configured identity -> OK); removal of an unconfigured identity may answer either way",
+                "traffic tier plans stay away from the recorded model-tier findings (no removal / duplicate of EQUALS rules [R1], no rule set whose answer depends on insertion order [R2, steered by a replica of the recorded defect used by the generator only], only regexes that mean the same anchored and unanchored [R3], a regex hostname in the tree only alone in its domain [R4]); what slips through carries the model tier's key wording",
+                "HTTPS listener: strict_sni_binding=false (probe hosts are not certificate names) and answer templates without `Connection: close` (a closing template ends the whole HTTP/2 connection); AF_UNIX sockets with simulated addresses stand in for TCP",
                 "release semantics (debug assertions off)",
             ],
-            real: vec!["sozu_lib::router::Router (pre/post lists, pattern_trie::TrieNode, DomainRule/PathRule/MethodRule, Frontend -> RouteResult)", "regex, idna", "std HashMap with keys drawn from the plan's hash_seed (installed World)"],
-            stub: vec!["no listener, no sessions: the Router is driven directly", "clock and entropy (World)"],
+            real: vec![
+                "sozu_lib::router::Router (pre/post lists, pattern_trie::TrieNode, DomainRule/PathRule/MethodRule, Frontend -> RouteResult)", "regex, idna", "std HashMap with keys drawn from the plan's hash_seed (installed World)",
+                "traffic tier: sozu_lib::server::Server with HttpProxy / HttpsProxy (worker-side Add/RemoveHttp(s)Frontend handlers, per-listener routers, tags bookkeeping), mux H1 and H2 frontends incl. rustls, route_from_request (host/port split, redirect / deny / forward decision, header edits), answer templates, backend connection reuse, the command channel (sozu_command_lib Channel, worker side)",
+            ],
+            stub: vec!["model tier: no listener, no sessions: the Router is driven directly", "traffic tier: master process (scripted, own framing codec), HTTP/1.1 and HTTP/2 clients, HTTP/1.1 backends, TLS client (rustls)", "clock and entropy (World)"],
             not_covered: vec![
-                "traffic tier (AddHttpFrontend/RemoveHttpFrontend interleaved with keep-alive/H2 requests through a running worker) is not part of this module",
-                "rewrite_host / rewrite_path capture substitution, header edits, HSTS refresh",
-                "non-ASCII (IDNA) hostnames, hostnames with port, query strings",
+                "rewrite_host / rewrite_path capture substitution, request-side header edits, HSTS refresh, required_auth (basic auth) frontends, redirect_template; the Location URL is only checked for its port and status",
+                "non-ASCII (IDNA) hostnames, query strings, hostnames the HTTP parser rejects",
                 "regex syntax beyond the catalogue (alternation, '.' inside host regexes)",
+                "HTTP/1.1 over TLS, HTTP/2 cleartext, pipelined HTTP/1.1 requests, WebSocket upgrades; tags are sent but their effect (access logs) is not observed",
+                "frontends changed through other verbs (RemoveCluster, listener removal / update, LoadState), and routing while a soft stop is in progress",
             ],
         }
     }
